@@ -11,11 +11,15 @@ open('/verif/lean/Proofs.lean','w').write("-- root of the proof library: one mod
 PY
 git add lean/Proofs.lean
 fi
+for f in $(git status --short | grep "^UU evidence" | awk '{print $2}'); do git checkout --theirs $f; git add $f; done
 if git status --short | grep -q "^UU\|^AA"; then echo "UNRESOLVED verif conflicts:"; git status --short | grep "^UU\|^AA"; exit 1; fi
 git commit -qm "merge wk-$g" 2>/dev/null
 echo "verif merged: $(git log --oneline | head -1)"
 cd /repo
-for c in $(git rev-list --reverse main..wk-$g); do
-  if git cherry-pick $c >/dev/null 2>&1; then echo "picked $(git log --format='%h %s' -1)"; else echo "CONFLICT picking $c: $(git log --format=%s -1 $c)"; git status --short | grep "^UU"; exit 1; fi
+for c in $(git rev-list --reverse main..wk-$g 2>/dev/null); do
+  out=$(git cherry-pick $c 2>&1)
+  if echo "$out" | grep -q "nothing to commit\|previous cherry-pick is now empty"; then git cherry-pick --skip; echo "skipped (already present) $(git log --format=%s -1 $c)";
+  elif git status --short | grep -q "^UU"; then echo "CONFLICT picking $c: $(git log --format=%s -1 $c)"; git status --short | grep "^UU"; exit 1;
+  else echo "picked $(git log --format='%h %s' -1)"; fi
 done
 /venv/bin/python -m pytest -q -p no:cacheprovider --timeout=900 2>&1 | grep -E "passed|failed" | tail -1
